@@ -180,9 +180,7 @@ def run_tlc(module, cfg, files=(), gen=None, env=None, workers=1, timeout=600, s
     m = re.search(r"depth of the complete state graph search is (\d+)", r.out)
     if m:
         r.depth = int(m.group(1))
-    for line in r.out.splitlines():
-        if line.startswith("<<") or line.startswith('"') or line.startswith("["):
-            r.printed.append(line)
+    r.printed = printed_values(r.out)
     if p.returncode in (12, 13):
         m = re.search(r"Error: (Invariant|Action property|Temporal properties|Postcondition|The postcondition)[^\n]*", r.out)
         r.violation = m.group(0) if m else "violation"
@@ -192,6 +190,35 @@ def run_tlc(module, cfg, files=(), gen=None, env=None, workers=1, timeout=600, s
         raise Infra("TLC failed rc=%d on %s/%s:\n%s" % (p.returncode, module, cfg, r.out[-6000:]))
     log("[tlc] %s/%s: %d generated, %d distinct, %.1fs rc=%d" % (module, cfg, r.generated, r.distinct, r.wall, r.rc))
     return r
+
+
+def printed_values(out):
+    """The values TLC printed (PrintT), one per element. TLC breaks a tuple that is longer than its line width over
+    several lines ('<< "TAG",' / '   elem,' / ... / '   last >>'): such a value is put back on one line and written
+    like a short one ('<<"TAG", elem, ..., last>>'), otherwise it would be LOST by a line based reader."""
+    res, cur, depth = [], None, 0
+    for line in out.splitlines():
+        if cur is None:
+            if line.startswith("<<") or line.startswith('"') or line.startswith("["):
+                depth = line.count("<<") - line.count(">>")
+                if line.startswith("<<") and depth > 0:
+                    cur = [line.strip()]
+                else:
+                    res.append(line)
+            continue
+        cur.append(line.strip())
+        depth += line.count("<<") - line.count(">>")
+        if depth <= 0:
+            v = " ".join(cur)
+            v = re.sub(r"<<\s+", "<<", v)      # written like a value that fitted on one line
+            v = re.sub(r"\s+>>", ">>", v)
+            v = re.sub(r"\{\s+", "{", v)
+            v = re.sub(r"\s+\}", "}", v)
+            res.append(v)
+            cur = None
+    if cur is not None:
+        res.append(" ".join(cur))
+    return res
 
 
 def tla_str(s):
